@@ -215,7 +215,7 @@ add("C07", "c_mtproto",
 add("C08", "c_mtproto",
     [T("TestC08Gen", 50000, 500000), T("TestC08Conn", 5000, 40000, env={"GOMAXPROCS": "4"}), T("TestC08Resend", 1500, 15000, env=CONN)],
     pre=["TestC08Regression"],
-    rule="(c) 2..8 sequential requests whose retransmission (no ack, retry interval 1 s) is drawn to fail: the link stops draining, the write fails at the request's deadline with nothing transferred (non-trivial = at least one failed retransmission); (a) MessageIDGen with a scripted clock: deltas {0,1,2,3,4,5,9,10,11 ns, 1 us, 1 ms, 1 s, -1 ns, -1 s, 15.6 ms} incl. second-boundary starts; (b) 2..24 concurrent Invoke/Ping calls in 1..3 waves on one connection, the peer decodes every frame. non-trivial = >=1 delta in 1..3 ns or a backwards jump (a) / both content and service messages (b); distinct by delta list / op list",
+    rule="(TestC08Conn: the peer announces a session - new_session_created, same or another unique_id - after drawn waves) (c) 2..8 sequential requests whose retransmission (no ack, retry interval 1 s) is drawn to fail: the link stops draining, the write fails at the request's deadline with nothing transferred (non-trivial = at least one failed retransmission); (a) MessageIDGen with a scripted clock: deltas {0,1,2,3,4,5,9,10,11 ns, 1 us, 1 ms, 1 s, -1 ns, -1 s, 15.6 ms} incl. second-boundary starts; (b) 2..24 concurrent Invoke/Ping calls in 1..3 waves on one connection, the peer decodes every frame. non-trivial = >=1 delta in 1..3 ns or a backwards jump (a) / both content and service messages (b); distinct by delta list / op list",
     technique="PBT (rapid) with a scripted clock; history oracle over frames decoded by the reference peer",
     text="Ids strictly increase, are divisible by 4, decoded time monotone and within 10 ns per call of the highest clock reading; in msg_id order content messages have seq_no 2k+1 and service messages 2k.",
     note="Retransmissions (same id, seq and body) are de-duplicated first.")
